@@ -506,12 +506,12 @@ Section ViewKeys.
     destruct (process_help_out req s) as (s' & E & O). exists s'. eexists. split; [exact E|]. split; [exact O|]. apply EndsOK_cmd_bytes, help_hops_ok.
   Qed.
 
-  Lemma on_enter_view s a : VInv s a ->
-    exists s', on_enter okT feats cs handler s = (Ok tt, s') /\ VInv s' (fst (astep a (Ctl Enter)))
-      /\ hcalls s' = hcalls s ++ snd (astep a (Ctl Enter)) /\ ig s' = ig s.
+  (* every Enter, whatever the line: CR LF, then output that is empty or ends with a line break, then exactly one prompt (the one now in force) *)
+  Lemma on_enter_out s a : SRel s a -> Forall pchar (chars (aline a)) ->
+    exists s' X, on_enter okT feats cs handler s = (Ok tt, s') /\ Outs s s' ([13; 10] ++ X ++ prompt s') /\ EndsOK X.
   Proof.
-    intros (HS & Hpc & Hh & Hpr & HV). destruct (on_enter okT feats cs handler s) as [r s'] eqn:E.
-    destruct (on_enter_refines feats cs handler cp hc s a r s' HS E) as (-> & HS' & Hc' & Hg'). exists s'. split; [reflexivity|]. split; [|auto].
+    intros HS Hpc. destruct (on_enter okT feats cs handler s) as [r s'] eqn:E.
+    destruct (on_enter_refines feats cs handler cp hc s a r s' HS E) as (-> & HS' & Hc' & Hg'). exists s'.
     destruct (line_ptext _ _ HS Hpc) as [Hpt Hco].
     unfold on_enter in E. destruct (wr_out CRLF s) as (s1 & E1 & (f1&f2&f3&f4&f5) & O1). unfold bind at 1 in E. rewrite E1 in E. rewrite bind_get in E.
     pose proof HS as (R & H & Hp & Hc & Hnf & Hv & Ha).
@@ -531,9 +531,19 @@ Section ViewKeys.
     assert (O13 : Outs s s3 [13; 10]). { unfold Outs, obytes in *. unfold s3; cbn [sk set_ed]. rewrite k2. exact O1. }
     assert (O35 : Outs s3 s5 X) by exact O4.
     pose proof (Outs_trans _ _ _ _ _ (Outs_trans _ _ _ _ _ (Outs_trans _ _ _ _ _ O13 O35) O6) O7) as Ho. rewrite app_nil_r, <- app_assoc in Ho.
+    exists X. split; [reflexivity|]. split; [rewrite Hprompt; exact Ho|exact HX].
+  Qed.
+
+  Lemma on_enter_view s a : VInv s a ->
+    exists s', on_enter okT feats cs handler s = (Ok tt, s') /\ VInv s' (fst (astep a (Ctl Enter)))
+      /\ hcalls s' = hcalls s ++ snd (astep a (Ctl Enter)) /\ ig s' = ig s.
+  Proof.
+    intros (HS & Hpc & Hh & Hpr & HV). destruct (on_enter_out s a HS Hpc) as (s' & X & E & Ho & HX).
+    destruct (on_enter_refines feats cs handler cp hc s a (Ok tt) s' HS E) as (_ & HS' & Hc' & Hg'). exists s'. split; [exact E|]. split; [|auto].
+    destruct (line_ptext _ _ HS Hpc) as [Hpt Hco]. pose proof HS as (R & H & Hp & Hc & Hnf & Hv & Ha).
     (* the prompt now in force is printable *)
     pose proof HS' as (R' & H' & Hp' & _). cbn [Session.astep fst] in *. cbn [Session.aprompt Session.aline Session.ahist] in *.
-    assert (Hpr' : ptext (prompt s7)).
+    assert (Hpr' : ptext (prompt s')).
     { rewrite Hp'. destruct (dispatch feats cs a) as [|[n ar] [|? ?]]; try (rewrite <- Hp; exact Hpr).
       apply last_prompt_ptext; [apply (eo_handler _ _ Henv)|rewrite <- Hp; exact Hpr]. }
     unfold VInv. cbn [Session.aline Session.ahist ideal0 chars icur].
@@ -543,7 +553,7 @@ Section ViewKeys.
     rewrite (term_Outs _ _ _ Ho). destruct (term s) as [t l] eqn:Et0. destruct HV as (Hl & _). cbn [snd] in Hl. subst l.
     rewrite tfeed_app. change [13; 10] with CRLF. rewrite tfeed_crlf, tfeed_app.
     destruct (EndsOK_fresh X (feed1 (feed1 t TCR) TLF) HX (conj eq_refl eq_refl)) as (t' & -> & Hf').
-    rewrite <- Hprompt. pose proof (View_print t' (prompt s7) [] Hf' Hpr' ptext_nil) as V. rewrite app_nil_r in V. exact V.
+    pose proof (View_print t' (prompt s') [] Hf' Hpr' ptext_nil) as V. rewrite app_nil_r in V. exact V.
   Qed.
 
   (* --- Tab *)
